@@ -16,6 +16,23 @@ EXTENDS Match, Actions
 
 Noise == <<"noise">>
 
+(***************************************************************************)
+(* Timing.  A line <<"slow", v>> is the message v arriving AFTER the        *)
+(* session's default timeout (and before a step's own, long timeout).  A    *)
+(* step with long = TRUE has its own long timeout; every other step waits  *)
+(* for the default one.  "An expected message that never arrives before    *)
+(* the timeout" is then: a slow line in a step that is not long is not     *)
+(* part of what the step sees.  (The generator puts slow lines only at the *)
+(* end of the last step, so nothing arrives behind them and nothing is     *)
+(* left over for a later step.)                                            *)
+(***************************************************************************)
+IsLong(st) == "long" \in DOMAIN st /\ st.long
+IsSlow(l)  == l[1] = "slow"
+Seen(st) ==
+  LET fast == SelectSeq(st.lines, LAMBDA x : ~IsSlow(x))
+      slow == SelectSeq(st.lines, IsSlow)
+  IN IF IsLong(st) THEN fast \o [i \in DOMAIN slow |-> slow[i][2]] ELSE fast
+
 Cands(o, line) == IF line = Noise THEN {} ELSE M(o.pat, line, EmptyFn)
 
 \* the line matches the output's pattern and the guard (if any) accepts the match
@@ -36,7 +53,7 @@ WindowOK(outs, w) ==
 RECURSIVE PassFrom(_, _, _)
 PassFrom(steps, k, carry) ==
   IF k > Len(steps) THEN TRUE
-  ELSE LET avail == carry \o steps[k].lines IN
+  ELSE LET avail == carry \o Seen(steps[k]) IN
        \E n \in 0..Len(avail) :
           /\ WindowOK(steps[k].outs, SubSeq(avail, 1, n))
           /\ PassFrom(steps, k + 1, SubSeq(avail, n + 1, Len(avail)))
@@ -68,7 +85,7 @@ ToolFrom(steps, k, carry, Marks) ==
   IF k > Len(steps) THEN "pass"
   ELSE LET outs == steps[k].outs
            need == Cardinality({i \in DOMAIN outs : ~outs[i].inv})
-           r    == ToolLines(outs, carry \o steps[k].lines, need, {}, Marks)
+           r    == ToolLines(outs, carry \o Seen(steps[k]), need, {}, Marks)
        IN IF r[1] = "fail" THEN "fail" ELSE ToolFrom(steps, k + 1, r[2], Marks)
 ToolPass(steps, Marks) == ToolFrom(steps, 1, <<>>, Marks) = "pass"
 =============================================================================
